@@ -249,7 +249,8 @@ func (dec *xmlReader) Type() Type {
 				return ty
 			}
 			//TODO: return error
-			panic("Invalid type")
+			// Unknown type name: report the invalid type 0, which no typed reader accepts.
+			return Type(0)
 		}
 	}
 	return TypeStructure
